@@ -144,7 +144,7 @@ class RdflibParserTripleYielder(RdflibTripleYielder):
 
     def _get_tmp_graph(self):
         result = Graph()
-        if self._compression_mode is not None:
+        if self._compression_mode is not None and self._source is not None:
             self._parse_compressed_files(result)
         elif self._source is not None:
             result.parse(source=self._source, format=self._input_format)
